@@ -55,10 +55,14 @@ func (n *Node) Render(keepOrder bool, withNS bool) string {
 func (n *Node) render(b *strings.Builder, depth int, keepOrder, withNS bool) {
 	ind := strings.Repeat(" ", depth)
 	switch n.Kind {
-	case KRoot:
-		b.WriteString("ROOT\n")
-	case KElem:
-		fmt.Fprintf(b, "%sE {%s}%s\n", ind, n.Space, n.Local)
+	case KRoot, KElem:
+		if n.Kind == KRoot {
+			// attributes or namespace nodes on the root are rendered too: the
+			// root has none in any of the data models, so any is a difference
+			b.WriteString("ROOT\n")
+		} else {
+			fmt.Fprintf(b, "%sE {%s}%s\n", ind, n.Space, n.Local)
+		}
 		if withNS {
 			ks := make([]string, 0, len(n.InScope))
 			for k := range n.InScope {
